@@ -297,3 +297,99 @@ Theorem refused_list_arguments : forall p opts,
   (forall a l, In (WithSecretJWTSignatureAlgs a l) opts -> is_empty a = false -> build2 p opts = None).
 Proof. exact (fun p opts => conj (refused_option p opts) (secret_jwt_algs_always_refused p opts)). Qed.
 Print Assumptions refused_list_arguments.
+
+(* ==== endpoint path overrides (Model/Routes.v, Proofs/C19PathsProofs.v) ====
+   `popt` = an option of Config.v (`PO o`) or one of the nine With…Endpoint options with its path;
+   `build3 p opts` = provider.New on the list in order (option.go: a With…Endpoint option assigns its
+   field unconditionally and touches nothing else; setDefaults: the default path where the field is
+   empty — for dcr / par / introspection / revocation / ciba only under the feature flag);
+   `routes3` / `serve3` = the route table of Provider.Handler() and its dispatch, `member3` the
+   members of the document, `last_override e opts` the argument of the LAST option of the list that
+   writes the path of e ("" if none).  For ALL option lists, paths and prefixes. *)
+From Verif Require Import Routes C19PathsProofs.
+
+(* (1) a route with the handler of endpoint e is registered iff the flag that guards e is set, and
+   that flag is set iff one of the ENABLING options of e is in the list — whatever With…Endpoint
+   options the list carries (`enables_ep e` is false on every path option) *)
+Theorem route_served_iff_feature_enabled : forall p opts pc, build3 p opts = Some pc -> forall e,
+  existsb (fun r => ep_eqb (r_ep r) e) (routes3 pc) = ep_guard (pc_cfg pc) e /\
+  ep_guard (pc_cfg pc) e = (if optional_ep e then existsb (enables_ep e) opts else true).
+Proof. exact C19PathsProofs.route_served_iff_feature_enabled. Qed.
+Print Assumptions route_served_iff_feature_enabled.
+
+Theorem path_options_enable_nothing : forall e o, (forall b, o <> PO b) -> enables_ep e o = false.
+Proof. exact C19PathsProofs.path_options_enable_nothing. Qed.
+Print Assumptions path_options_enable_nothing.
+
+(* the path an endpoint ends up with: the last override — or the default when there is none or it is
+   empty — but ONLY where setDefaults fills it in, i.e. when the endpoint is enabled *)
+Theorem endpoint_path_from_options : forall p opts pc e, build3 p opts = Some pc ->
+  path3 (pc_paths pc) e =
+  if ep_guard (pc_cfg pc) e then non_zero_path (last_override e opts) (ep_path e) else last_override e opts.
+Proof. exact build3_path. Qed.
+Print Assumptions endpoint_path_from_options.
+
+(* (2) enabled: the member is exactly issuer ++ prefix ++ that path; a route is registered there under
+   every method of the endpoint and — the patterns of different endpoints not overlapping,
+   `routes_ok` — answers there; and the handler of e answers NOWHERE else (in particular not at the
+   default path once it is overridden) *)
+Theorem enabled_advertised_and_served_at_override : forall iss mtls p opts pc m e, build3 p opts = Some pc ->
+  member_endpoint m = Some e -> ep_guard (pc_cfg pc) e = true ->
+  let path := non_zero_path (last_override e opts) (ep_path e) in
+  member3 iss mtls pc m = Some (DStr (iss ++ cf_prefix (pc_cfg pc) ++ path)) /\
+  (forall mt, In mt (ep_methods e) -> In (mkRoute mt path false e) (routes3 pc)) /\
+  (routes_ok pc = true -> forall mt, In mt (ep_methods e) -> serve3 pc mt (cf_prefix (pc_cfg pc) ++ path) = Some e) /\
+  (forall mt x, serve3 pc mt x = Some e -> x = (cf_prefix (pc_cfg pc) ++ path)%string).
+Proof. exact enabled_at_override. Qed.
+Print Assumptions enabled_advertised_and_served_at_override.
+
+(* (2') not enabled (every configuration record, so whatever the With…Endpoint options wrote): the
+   member is absent, no route carries the handler, no request reaches it, and a path that collides
+   with no OTHER endpoint's pattern (`free_of_others`: the overridden path, the default path) gets
+   the mux's own 404 / 405 *)
+Theorem disabled_absent_and_not_routed_under_overrides : forall iss mtls pc e, ep_guard (pc_cfg pc) e = false ->
+  (forall m, member_endpoint m = Some e -> member3 iss mtls pc m = None) /\
+  (forall r, In r (routes3 pc) -> r_ep r <> e) /\
+  (forall mt x, serve3 pc mt x <> Some e) /\
+  (forall mt rel, free_of_others pc e mt rel = true -> serve3 pc mt (cf_prefix (pc_cfg pc) ++ rel) = None).
+Proof. exact disabled_absent_and_not_routed. Qed.
+Print Assumptions disabled_absent_and_not_routed_under_overrides.
+
+(* (3) advertised -> served: every endpoint URL of the document is issuer ++ prefix ++ the configured
+   path of a route registered under every method of the endpoint (every configuration record) ... *)
+Theorem advertised_served_under_overrides : forall iss mtls pc m e url,
+  member_endpoint m = Some e -> member3 iss mtls pc m = Some (DStr url) ->
+  url = (iss ++ cf_prefix (pc_cfg pc) ++ path3 (pc_paths pc) e)%string /\
+  (forall mt, In mt (ep_methods e) -> In (mkRoute mt (path3 (pc_paths pc) e) false e) (routes3 pc)) /\
+  (routes_ok pc = true -> forall mt, In mt (ep_methods e) ->
+     serve3 pc mt (cf_prefix (pc_cfg pc) ++ path3 (pc_paths pc) e) = Some e).
+Proof. exact advertised_served3. Qed.
+Print Assumptions advertised_served_under_overrides.
+
+(* ... the aliases carry the same paths under the mTLS host, for enabled endpoints only ... *)
+Theorem mtls_aliases_follow_overrides : forall mtls pc name url, In (name, url) (mtls_aliases3 mtls pc) ->
+  exists m e, name = member_name m /\ member_endpoint m = Some e /\ ep_guard (pc_cfg pc) e = true /\
+    url = (mtls ++ cf_prefix (pc_cfg pc) ++ path3 (pc_paths pc) e)%string /\
+    (forall mt, In mt (ep_methods e) -> In (mkRoute mt (path3 (pc_paths pc) e) false e) (routes3 pc)).
+Proof. exact mtls_aliases_served3. Qed.
+Print Assumptions mtls_aliases_follow_overrides.
+
+(* ... served -> advertised: every registered route is the document itself or (a sub-resource of) an
+   endpoint whose member is exactly issuer ++ prefix ++ the path of that route; and whatever handler
+   a request is dispatched to is advertised at the requested URL *)
+Theorem served_advertised_under_overrides : forall iss mtls p opts pc r, build3 p opts = Some pc -> In r (routes3 pc) ->
+  match endpoint_member (r_ep r) with
+  | Some m => member3 iss mtls pc m = Some (DStr (iss ++ cf_prefix (pc_cfg pc) ++ r_path r))
+  | None => r_ep r = EpWellKnown end.
+Proof. exact served_advertised3. Qed.
+Print Assumptions served_advertised_under_overrides.
+
+Theorem dispatched_request_is_advertised : forall iss mtls p opts pc mt x e, build3 p opts = Some pc ->
+  serve3 pc mt x = Some e ->
+  match endpoint_member e with
+  | Some m => exists url, member3 iss mtls pc m = Some (DStr url) /\
+                if is_sub e then exists rest, (iss ++ x = (url ++ "/") ++ rest)%string /\ is_empty rest = false
+                else (iss ++ x)%string = url
+  | None => e = EpWellKnown end.
+Proof. exact dispatched_is_advertised. Qed.
+Print Assumptions dispatched_request_is_advertised.
